@@ -195,7 +195,8 @@ Section Spec.
         if negb (st =? opret)%Z then 1                        (* status is not the operation's *)
         else if negb (in_capsb caps (fa_as x)) then 2         (* result not in a usable space *)
         else if in_capsb caps (fa_as a) && negb (fa_eqb x a) then 3
-        else if negb (existsb (fa_eqb x) (conv_all d len caps a)) then 4   (* not a composition *)
+        else if negb (existsb (fun d' => existsb (fa_eqb x) (conv_all d' len caps a)) (seq 0 (S d)))
+             then 4                                          (* not a composition (of nesting <= d) *)
         else 0
     | _ => 1                                                   (* operation invoked twice *)
     end.
